@@ -227,8 +227,9 @@ def run_dial(ctx, cases=None):
     import websocket._http as H
     cases = cases if cases is not None else dial_cases(ctx)
     lm, ls, real = [], [], []
-    for outs, to, so in cases:
+    for ci, (outs, to, so) in enumerate(cases):
         net = N.Net(addrs=outs)
+        net.v6 = (ci % 3 == 2)          # every third resolution answers with scoped IPv6 addresses
         try:
             with N.patched(net, {}):
                 infos = H.socket.getaddrinfo("h", 80, 0, real_socket.SOCK_STREAM, real_socket.SOL_TCP)
@@ -240,6 +241,13 @@ def run_dial(ctx, cases=None):
         except Exception as e:  # noqa
             res = common.canon_exc(e)
         real.append(res + " " + N.render_events(net.log))
+        # every socket is connected to exactly the sockaddr the resolver returned for it (IPv6: flowinfo and scope id included)
+        for ev in net.log:
+            if ev[0] == "connect" and ev[2] != net.resolved[ev[1]]:
+                ctx.violate("all-addresses-tried", "connect-address-not-the-resolved-sockaddr",
+                            {"op": "open-socket", "outcomes": outs, "resolved": [list(a) for a in net.resolved]},
+                            str(net.resolved[ev[1]]), str(ev[2]), size=len(outs))
+                break
         args = f"{N.enc_timeout(to)} {opts_arg(so)} {N.outcomes_arg(outs)}"
         lm.append("m-open-socket " + args)
         ls.append("s-dial " + args)
@@ -471,6 +479,55 @@ def run_redirects(ctx):
     ctx.traces_vs_impl += len(runs)
 
 
+def run_same_object(ctx):
+    """the second connection of ONE WebSocket object (connect, close while connected, connect again; or a failed connect,
+    then another): the configured timeout — not whatever close() or the previous attempt used — is applied to every socket
+    tried, and the target is that of the new URL."""
+    import websocket
+    for to_kw, configured in ((10, 10), (None, None), (0.25, 0.25)):
+        for first_url, second_url, second_outs in (("ws://h/", "ws://h/", ["r", "u", "a"]), ("ws://h/", "wss://g:8443/x", ["u", "a"]),
+                                                   ("wss://h/", "ws://h:81/", ["a"])):
+            for how in ("close", "close-timeout-1", "shutdown", "failed-first"):
+                net = N.Net(addrs=["u"] if how == "failed-first" else ["r", "a"])
+                obs, exc = [], None
+                with N.patched(net, {}):
+                    ws = websocket.WebSocket()
+                    try:
+                        if to_kw is None:
+                            ws.connect(first_url)
+                        else:
+                            ws.connect(first_url, timeout=to_kw)
+                    except OSError:
+                        pass
+                    try:
+                        if how == "close":
+                            ws.close()
+                        elif how == "close-timeout-1":
+                            ws.close(timeout=1)
+                        elif how == "shutdown":
+                            ws.shutdown()
+                    except Exception as e:  # noqa
+                        exc = e
+                    n2 = len(net.log)
+                    net.addrs = list(second_outs)
+                    try:
+                        ws.connect(second_url)
+                    except Exception as e:  # noqa
+                        exc = e
+                    obs = [e for e in net.log[n2:] if e[0] in ("settimeout", "resolve")]
+                    seen_to = ws.gettimeout()
+                ctx.case(key=("same-object", to_kw, first_url, second_url, how), nontrivial=True, cls=f"same-object:{how}:timeout={to_kw}")
+                inp = {"op": "connect / " + how + " / connect on one object", "timeout": to_kw, "first": first_url, "second": second_url,
+                       "second_outcomes": second_outs}
+                u = N.urlparts(second_url) if hasattr(N, "urlparts") else None
+                want_to = [("settimeout", None, configured)] * len(second_outs)
+                got_to = [("settimeout", None, e[2]) for e in obs if e[0] == "settimeout"]
+                if exc is not None or got_to != want_to or seen_to != configured:
+                    ctx.violate("all-addresses-tried", "timeout-of-an-earlier-call-leaks-into-the-next-connect", inp,
+                                f"settimeout({configured}) on each of {len(second_outs)} sockets; gettimeout() = {configured}",
+                                f"{[e[2] for e in obs if e[0] == 'settimeout']}, gettimeout() = {seen_to}, exception {exc!r}", size=6)
+
+
 def run_dispatcher(ctx):
     import websocket
     urls = ["ws://h/", "wss://h/", "wss://h:80/", "ws://h:443/", "wss://[::1]/p"]
@@ -520,6 +577,7 @@ def run_inputs(ctx, inputs):
 
 
 def run(ctx):
+    run_same_object(ctx)
     ctx.assumptions = [
         "C18: urllib.parse.urlsplit is modelled on the ASCII URL alphabet only (letters digits -._~:/?#[]@!$&'()*+,;=%); outside it the driver answers `unmodelled` and the case is judged by the oracle alone",
         "C18: urllib.parse._check_bracketed_host (ipaddress) is a parameter `v6ok` of model, Spec and theorems; the driver's instance Model.Url.bracketOk is compared with CPython on generated literals, not proved",
